@@ -239,7 +239,7 @@ class _ManifoldDynamicsService(_DynamicsServiceBase):
                 self.orbit.initial_state,
                 self.period,
                 steps=steps,
-                forward=self.forward,
+                forward=1,
             )
         
         return self.get_or_create(cache_key, _factory)
